@@ -424,6 +424,7 @@ def r2(ctx):
     # packets may also be built by a helper of the protocol class that is handed (data, source) and returns the packet
     sites = [(dr, c, dparam, sparam, None) for c in pkts]
     builder_calls = []
+    helper_args: Dict[str, Dict[str, Optional[str]]] = {}      # helper -> {its parameter: argument path in datagram_received}
     for hc in calls(dr.node, into_defs=False):
         h = resolve_method_call(repo, dr, hc)
         if h is None or h == dr:
@@ -440,6 +441,7 @@ def r2(ctx):
         builder_calls.append(hc)
         for c in built:
             sites.append((h, c, inv[dparam], inv[sparam], hc))
+        helper_args[h.full] = amap
     n_out = n_in = 0
     for fn, c, dp, sp, outer in sites:
         fcfg = cfg if fn == dr else CFG(fn.node)
@@ -529,7 +531,14 @@ def r2(ctx):
             ctx.ob("C06.R2", "datagram_received[IN]: data is the raw datagram", ap(a.get("data")) == dp, where)
             dst = a.get("dst_addr")
             v = single_assign(fn.node, dst.id) if isinstance(dst, ast.Name) else None
-            okm = isinstance(v, ast.Call) and ap(v.func) == "self.far_to_near_map.get" and v.args and ap(v.args[0]) == sp
+            key_name = sp
+            if v is None and isinstance(dst, ast.Name) and fn != dr:
+                # the mapped near address is looked up by datagram_received and handed to the builder helper
+                outer_name = helper_args.get(fn.full, {}).get(dst.id)
+                if outer_name and "." not in outer_name:
+                    v = single_assign(dr.node, outer_name)
+                    key_name = sparam
+            okm = isinstance(v, ast.Call) and ap(v.func) == "self.far_to_near_map.get" and v.args and ap(v.args[0]) == key_name
             ctx.ob("C06.R2", "datagram_received[IN]: dst_addr is far_to_near_map[source]", bool(okm), where,
                    f"dst_addr is {norm(dst) if dst is not None else None}")
             if isinstance(dst, ast.Name):
@@ -688,6 +697,7 @@ def check_region_lookup(ctx, rule: str):
     """region_by_circuit_addr (shared by proxy and client) answers a region only under the fact that its
     circuit_addr equals the argument - also on a fast path / cache in front of the scan."""
     repo = ctx.repo
+    _REPO[0] = repo
     rb = repo.fn("BaseClientSession.region_by_circuit_addr", STATE)
     rparam = msg_param(rb)
     nret = 0
@@ -716,6 +726,9 @@ def r2_identity(ctx):
     ctx.floor("C06.R2", "circuit_addr writers (region constructors)", n, 2)
 
 
+_REPO: List[Any] = [None]      # set by the rules that use selected_element (the repo the current run analyses)
+
+
 def selected_element(fn: FuncInfo, r: ast.Return) -> Tuple[ast.AST, Optional[str], Optional[str]]:
     """For `return x`: (node whose facts describe the returned object, its name there, its name at the return).
     `x = next((c for c in xs if <filters>), None)` is described by the generator element under its filters."""
@@ -734,6 +747,30 @@ def selected_element(fn: FuncInfo, r: ast.Return) -> Tuple[ast.AST, Optional[str
                 and isinstance(dflt, ast.Constant) and dflt.value is None):
             raise AnalysisError(f"{fn.qual}: unsupported result {norm(r.value)}")
         return gen.elt, gen.elt.id, outer
+    if isinstance(val, ast.Call) and _REPO[0] is not None:
+        # `return self._find(lambda x: <cond>)`: a finder helper that returns the first element its predicate
+        # parameter accepts - the returned object is described by the lambda body
+        from .c05 import method_params, resolve_method_call
+        h = resolve_method_call(_REPO[0], fn, val)
+        lams = [(i, a) for i, a in enumerate(val.args) if isinstance(a, ast.Lambda)]
+        if h is not None and len(lams) == 1 and len(lams[0][1].args.args) == 1:
+            params = method_params(h)
+            pred = params[lams[0][0]] if lams[0][0] < len(params) else None
+            rets = [x for x in walk(h.node) if isinstance(x, ast.Return) and x.value is not None
+                    and not (isinstance(x.value, ast.Constant) and x.value.value is None)]
+            ok = bool(rets) and pred is not None
+            for x in rets:
+                v_ = ap(x.value)
+                ok = ok and v_ is not None and any(
+                    isinstance(e, ast.Call) and ap(e.func) == pred and len(e.args) == 1 and ap(e.args[0]) == v_ and pol
+                    for e, pol in facts(x, h.node))
+            if ok:
+                lam = lams[0][1]
+                probe = ast.Pass()
+                holder = ast.If(test=lam.body, body=[probe], orelse=[])
+                probe._parent = holder
+                holder._parent = None
+                return probe, lam.args.args[0].arg, outer
     if ap(val) is None:
         raise AnalysisError(f"{fn.qual}: unsupported result {norm(r.value)}")
     return r, ap(val), outer
@@ -920,8 +957,8 @@ def r3(ctx):
             return False
         l, r_ = e.left, e.comparators[0]
         for a_, b_ in ((l, r_), (r_, l)):
-            if isinstance(b_, ast.Constant) and b_.value == "template" and \
-                    any(isinstance(n_, ast.Constant) and n_.value == "flavor" for n_ in ast.walk(a_)):
+            bv = b_.value if isinstance(b_, ast.Constant) else ConstEval(repo, vm.module).ev(b_)
+            if bv == "template" and any(isinstance(n_, ast.Constant) and n_.value == "flavor" for n_ in ast.walk(a_)):
                 return True
         return False
 
@@ -1026,10 +1063,36 @@ def r3_msgxml(ctx):
     ctx.floor("C06.R3", "message.xml keys", nkeys, 100)
 
 
+def r3_teardown(ctx):
+    """A fault on one datagram must not take the association (and with it the session) down: the protocol
+    classes never close themselves - teardown belongs to the owner of the SOCKS control connection."""
+    repo = ctx.repo
+    base = repo.cls("UDPProxyProtocol", SOCKS)
+    offenders = []
+    n = 0
+    for ci in repo.subclasses(base):
+        for f in ci.methods.values():
+            n += 1
+            if f.name in ("close", "__del__"):
+                continue
+            for c in calls(f.node, into_defs=True):
+                p_ = ap(c.func) or ""
+                if p_ in ("self.close", "self.transport.close") or call_attr(c) == "close_session":
+                    offenders.append((f, c))
+    for f, c in offenders:
+        ctx.ob("C06.R3", f"{f.qual}: {norm(c)} - protocol callbacks never tear the association down", False, ctx.w(f, c),
+               "the association / session is closed from inside a protocol callback (one socket serves the viewer and all "
+               "of its simulators): every later datagram on every open circuit is lost")
+    ctx.ob("C06.R3", "UDP association teardown is left to the SOCKS control connection (ProxyClientContext.close)",
+           not offenders, base.module.rel + f":{base.node.lineno}")
+    ctx.floor("C06.R3", "protocol methods scanned for self-teardown", n, 5)
+
+
 def r3_claim(ctx):
     """A pending session is handed to exactly one UDP association: claim_session returns a session only
     while it is pending, with the requested id, and clears `pending` before returning it."""
     repo = ctx.repo
+    _REPO[0] = repo
     cs = repo.fn("SessionManager.claim_session", SESS)
     sid = msg_param(cs)
     cfg = CFG(cs.node)
@@ -1265,11 +1328,37 @@ class _Open(Explorer):
         super().__init__()
         self.repo = repo
 
+    def helper_verdicts(self, h: FuncInfo) -> set:
+        """Truth values a helper method of the session can return on its feasible paths."""
+        out = set()
+        ex2 = _Open(self.repo)
+        ex2.fi = h
+        for kind, node, _ in ex2.explore(h.node.body, St(data={"cons": []})):
+            if kind == "raise":
+                continue
+            v = node.value if kind == "return" and node is not None else None
+            if v is None:
+                out.add(False)
+            elif isinstance(v, ast.Constant):
+                out.add(bool(v.value))
+            else:
+                out |= {True, False}
+        return out
+
     def branch(self, test, st: St):
-        from .c05 import facts_exclude
+        from .c05 import facts_exclude, resolve_method_call
         out = []
+        fixed = {}
+        fi_ = getattr(self, "fi", None)
+        if fi_ is not None:
+            for c in calls(test, into_defs=False):
+                h = resolve_method_call(self.repo, fi_, c)
+                if h is not None and h != fi_:
+                    vs = self.helper_verdicts(h)
+                    if len(vs) == 1:
+                        fixed[id(c)] = (c, next(iter(vs)))
         for val in (True, False):
-            cons = list(st.data.get("cons", [])) + [(test, val)]
+            cons = list(st.data.get("cons", [])) + [(test, val)] + [(c, v) for c, v in fixed.values()]
             if facts_exclude(self.repo, cons, []):
                 continue
             s2 = st.copy()
@@ -1325,6 +1414,7 @@ def r5(ctx):
     if isinstance(match.ops[0], ast.NotEq):
         assume(match, False, st0)
     ex = _Open(repo)
+    ex.fi = oc
     st0.data["cons"] = [(eq, True)]
     blk, _ = _block_of(loop)
     tail = blk[[i for i, s in enumerate(blk) if s is loop][0] + 1:] if blk is not None else []
@@ -1351,7 +1441,7 @@ def r5(ctx):
                    truthy, ctx.w(oc, n2 if n2 is not None else loop),
                    "the addressed region exists (circuit created or already alive) but the caller is told to discard "
                    "the datagram: a retransmitted UseCircuitCode never reaches the simulator")
-    ctx.floor("C06.R5", "open_circuit paths for a matching region", n, 2)
+    ctx.floor("C06.R5", "open_circuit paths for a matching region", n, 1)
     ctx.assume("calls made between a test and its use do not change the truthiness of the tested attributes")
 
 
@@ -1400,6 +1490,7 @@ def run(ctx):
     r2_identity(ctx)
     r3(ctx)
     r3_msgxml(ctx)
+    r3_teardown(ctx)
     r3_claim(ctx)
     r4(ctx)
     r5(ctx)
